@@ -190,6 +190,9 @@ func c19Run(c *Ctx, cs c19Case, count bool) {
 	switch cs.Place {
 	case "top":
 		recv = target
+	case "top-mutex":
+		target.SetMutex()
+		recv = target
 	case "in-stack":
 		recv = stackage.And().Push("p0", target, "p1")
 		parentWant = []any{"p0", target, "p1"}
@@ -238,7 +241,7 @@ func c19Run(c *Ctx, cs c19Case, count bool) {
 	}
 	got := contents(target)
 	pre := ""
-	if cs.Place != "top" {
+	if cs.Place != "top" && cs.Place != "top-mutex" {
 		pre = "nested(" + cs.Place + "):"
 	}
 	lim := cs.Limit
@@ -289,7 +292,7 @@ func c19Run(c *Ctx, cs c19Case, count bool) {
 	if !target.IsInit() {
 		c.Violation(pre+"config-lost", fmt.Sprintf("stack no longer initialised after Defrag on %s", jsonString(cs)), cs, size)
 	}
-	if cs.Place != "top" {
+	if cs.Place != "top" && cs.Place != "top-mutex" {
 		if pg := contents(recv); !sameList(pg, parentWant) {
 			c.Violation(pre+"parent-changed", fmt.Sprintf("the enclosing stack changed: %s want %s (%s)", showTypes(pg), showTypes(parentWant), jsonString(cs)), cs, size)
 		}
@@ -332,7 +335,7 @@ func c19Cases(c *Ctx) []c19Case {
 					out = append(out, c19Case{n, mask, lim, opt.neg, opt.fwd, "top", "LIST"})
 				}
 				if n <= nestLen && (lim == 0 || lim == 3) {
-					for _, pl := range []string{"in-stack", "alias", "ptr-alias", "in-cond", "in-cond-only", "in-cond-alias", "deep"} {
+					for _, pl := range []string{"top-mutex", "in-stack", "alias", "ptr-alias", "in-cond", "in-cond-only", "in-cond-alias", "deep"} {
 						out = append(out, c19Case{n, mask, lim, false, false, pl, "AND"})
 					}
 				}
@@ -344,6 +347,7 @@ func c19Cases(c *Ctx) []c19Case {
 
 func init() {
 	register(&Check{ID: "C19", Engine: "B", Run: func(c *Ctx) {
+		installLockModel()
 		cases := c19Cases(c)
 		c.Rule = "every nil/non-nil pattern of length 0..max over distinct tokens x scan limit {default,1,2,3,13} (only patterns whose longest nil run is shorter than the limit) x index options x placement (top level, element of a Stack, alias, pointer to alias, expression of a Condition, Condition alias holding an alias, two levels deep); non-trivial = distinct cases that contain at least one nil"
 		parallelFor(len(cases), func(i int) { c19Run(c, cases[i], true) })
